@@ -34,7 +34,11 @@ RULE = ("Documents = 27 feature shapes (plain scenarios, outlines with 0-2 examp
         "x 5 layouts "
         "(tight / blank / comment / blank+comment+tab-indent / tags on two lines with trailing comment, comment between "
         "tag and keyword, blank lines between table rows) x 2 headers (none / language comment + two feature tag lines + "
-        "description) = 270: 24 of them (quick) / all (thorough) for the multi-location sweeps. Per document: every single line 0..last+3 and the bare "
+        "description) = 270: 24 of them (quick) / all (thorough) for the multi-location sweeps. The feature FILE on disk also varies its line endings (CRLF, lone CR, LF with one / two "
+        "stray lone CRs, LF with one CRLF line; with and without a final newline; lines counted as an editor that "
+        "honours all three kinds does): every single line on 6 documents (quick) / 24 (thorough) x 8 ending variants; "
+        "list files also with CRLF / CR endings and without a final newline. "
+        "Per document: every single line 0..last+3 and the bare "
         "name; all multisets of 2 (quick: on 24 documents; thorough: on all, and all multisets of 3) over {bare, 0, entity lines, entity "
         "lines +/-1}; two-file lists in grouped and interleaved order; the same through @listfile (other directory, "
         "relative entries, comments, blank lines, padding) and with absolute paths. Every selection is observed twice "
@@ -156,7 +160,7 @@ class Doc(object):
 def render(dockey):
     """(shape, gap, head) -> Doc.   Doc.ents = sorted [(line, kind, frozenset(scenario lines))];
     Doc.scen = {line: (name_template_or_name, tags, kind)}; kinds: F R O row S"""
-    shape, gap, head = dockey
+    shape, gap, head = dockey[:3]       # an optional 4th element selects the line ENDINGS of the file on disk
     has_bg, items = SHAPES[shape][:2]
     ftags = SHAPES[shape][2] if len(SHAPES[shape]) > 2 else ()
     lay = LAYOUTS[gap]
@@ -394,6 +398,40 @@ def _run_tag():
     return os.getpid() if multiprocessing.current_process().name == "MainProcess" else os.getppid()
 
 
+# line endings of the feature file on disk (dockey[3]); line numbers are those of an editor that honours LF, CRLF and a
+# lone CR alike, i.e. exactly the renderer's numbers
+EOLS = (None, ("crlf", True), ("crlf", False), ("cr", True), ("cr", False), ("lf+stray-cr", True),
+        ("lf+stray-cr", False), ("lf+one-crlf", True), ("lf+two-stray-cr", True))
+
+
+def with_line_endings(text, eol):
+    if eol is None:
+        return text                         # as rendered: LF, final newline as the layout has it
+    kind, final = eol
+    lines = text.split("\n")
+    if lines and lines[-1] == "":
+        lines.pop()
+    seps = [{"crlf": "\r\n", "cr": "\r"}.get(kind, "\n")] * (len(lines) - 1)
+
+    def lone(i):
+        """a separator at or after #i whose following line is not empty (CR + empty line + LF would read as ONE
+        CRLF line end, also in an editor)"""
+        while i < len(seps) - 1 and lines[i + 1] == "":
+            i += 1
+        return i
+    if kind == "lf+stray-cr" and seps:
+        seps[lone(len(seps) // 3)] = "\r"    # one lone CR somewhere in the upper part of an LF file
+    elif kind == "lf+two-stray-cr" and seps:
+        seps[lone(0)] = "\r"
+        seps[lone((2 * len(seps)) // 3)] = "\r"
+    elif kind == "lf+one-crlf" and seps:
+        seps[len(seps) // 2] = "\r\n"
+    out = "".join(l + sp for l, sp in zip(lines, seps + [""]))
+    if final:
+        out += {"crlf": "\r\n", "cr": "\r"}.get(kind, "\n")
+    return out
+
+
 class Sandbox(object):
     """fresh directory under /dev/shm holding the rendered documents; cwd = <root>/run"""
     FILES = ("features/a.feature", "features/sub/b.feature")
@@ -409,7 +447,7 @@ class Sandbox(object):
             d = render(dk)
             p = os.path.join(self.root, "run", self.FILES[i])
             with io.open(p, "w", encoding="utf-8", newline="") as f:
-                f.write(d.text)
+                f.write(with_line_endings(d.text, EOLS[dk[3]] if len(dk) > 3 else None))
             self.docs.append(d)
             self.abs.append(p)
         os.chdir(os.path.join(self.root, "run"))
@@ -423,7 +461,7 @@ def _loc_text(path, line):
     return path if line is None else "%s:%d" % (path, line)
 
 
-LISTFILE_STYLES = ("plain", "comments", "padded", "indented")
+LISTFILE_STYLES = ("plain", "comments", "padded", "indented", "crlf", "cr", "nofinal")
 
 
 def make_paths(sb, selection, via):
@@ -444,6 +482,12 @@ def make_paths(sb, selection, via):
         body = "".join(e + "   \n" for e in entries) + "   \n"
     elif style == "indented":
         body = "".join("  " + e + "\n" for e in entries)
+    elif style == "crlf":
+        body = "# selected\r\n" + "".join(e + "\r\n" for e in entries)
+    elif style == "cr":
+        body = "# selected\r" + "".join(e + "\r" for e in entries)
+    elif style == "nofinal":
+        body = "\n".join(entries)
     else:
         raise ValueError(style)
     lf = os.path.join(sb.root, "lists", "sel.txt")
@@ -526,8 +570,10 @@ def judge_single(doc, line, ob):
     kept, ex, st, model_lines, nfeat = ob
     for ml in model_lines:
         if list(ml) != all_lines:
-            v.append((dict(base, clause="model-scenario-lines"),
-                      "scenario lines in the model %r differ from the rendered ones %r" % (list(ml), all_lines)))
+            # independent of the line that was addressed: one class
+            v.append(({"subcheck": "location-select", "clause": "model-scenario-lines"},
+                      "scenario lines in the model %r differ from the rendered ones %r (lines counted as an editor "
+                      "honouring LF, CRLF and lone CR counts them)" % (list(ml), all_lines)))
             return v, False, kind
     if want is UNCONSTRAINED:
         return v, False, kind
@@ -983,7 +1029,8 @@ def check_listparse(case):
     entries, style, here = case
     from behave.runner_util import FeatureListParser
     deco = {"plain": (u"", u"", u"\n"), "comments": (u"", u"", u"\n# comment\n\n   \n#x:3\n"),
-            "padded": (u"", u"  \t", u"\n"), "indented": (u"  ", u"", u"\n"), "crlf": (u"", u"", u"\r\n")}[style]
+            "padded": (u"", u"  \t", u"\n"), "indented": (u"  ", u"", u"\n"), "crlf": (u"", u"", u"\r\n"),
+            "cr": (u"", u"", u"\r")}[style]
     text = u"".join(deco[0] + n + s + deco[1] + deco[2] for n, (s, _, _) in entries)
     want = []
     for n, (s, line, _) in entries:
@@ -1129,13 +1176,16 @@ def run(ctx):
     entries2 = [tuple((n, s) for n, s in zip(FL_NAMES[i:i + 3], FL_SUFFIX[j:j + 3]))
                 for i in range(0, len(FL_NAMES) - 2) for j in range(0, 5)]
     ctx.sweep(check_listparse, [(e, st, here) for e in entries2
-                                for st in ("plain", "comments", "padded", "indented", "crlf")
+                                for st in ("plain", "comments", "padded", "indented", "crlf", "cr")
                                 for here in (None, "/some/where", "rel/dir")],
               chunk=32, name="FeatureListParser.parse")
 
     ctx.sweep(check_locations, single_cases(ALL_DOCS), chunk=1, name="single lines")
     ctx.sweep(check_locations, single_cases(QUICK_DOCS[:6] if ctx.quick else QUICK_DOCS, via="abs"), chunk=1,
               name="single lines, absolute paths")
+    eol_docs = [QUICK_DOCS[i] for i in ((1, 3, 4, 6, 11, 20) if ctx.quick else range(len(QUICK_DOCS)))]
+    ctx.sweep(check_locations, single_cases([dk + (e,) for dk in eol_docs for e in range(1, len(EOLS))]), chunk=1,
+              name="single lines, CRLF / CR / mixed line endings")
     ctx.sweep(check_locations, multiset_cases(pair_docs, 2, True), chunk=1, name="location pairs")
     if not ctx.quick:
         ctx.sweep(check_locations, multiset_cases(QUICK_DOCS, 3, True), chunk=1, name="location triples (run)")
